@@ -315,7 +315,7 @@ fn replay_saved_inputs(c: &mut Check, property: &'static str, also: &'static [&'
         return;
     }
     let known_all = known_list();
-    let dir = format!("{}/corpus/{}", crate::runner::VERIF_DIR, property);
+    let dir = format!("{}/corpus/{}", crate::runner::verif_dir(), property);
     let mut files: Vec<std::path::PathBuf> = match std::fs::read_dir(&dir) {
         Ok(rd) => rd.filter_map(|e| e.ok()).map(|e| e.path()).filter(|p| p.extension().map(|x| x == "json").unwrap_or(false)).collect(),
         Err(_) => vec![],
